@@ -84,6 +84,18 @@ class Compiler(object):
             c = self.cache[key] = (solv, cons)
         return c
 
+    def get_split(self, text, sch, loc, cut):
+        """the same system handed to generate_solvers as a TUPLE of strings (documented alternative): lines [:cut]
+        and [cut:]; generate_solvers then returns nested solver groups, which generate_constraint must flatten"""
+        key = ("split", cut, text, repr(sch.variables), sch.dim, tuple(sorted(loc.items())))
+        c = self.cache.get(key)
+        if c is None:
+            lines = text.split("\n")
+            parts = ("\n".join(lines[:cut]), "\n".join(lines[cut:]))
+            solv = self.ms.generate_solvers(parts, variables=sch.variables, nvars=sch.dim, locals=dict(loc))
+            c = self.cache[key] = self.ms.generate_constraint(solv)
+        return c
+
 
 def replay_relations(ck, chunk):
     import mystic.symbolic as ms
@@ -204,6 +216,17 @@ def replay_relations(ck, chunk):
                     problems.append(("same-variable[%s]:%s:%s" % (gops, same, what),
                                      "lines %s on one left-hand variable (%s): signs(y_i - rhs) = %s, allowed %s" % (
                                          [k + 1 for k in ls], gops, list(tup), sorted(ts))))
+            if len(recs) >= 2 and not grouped and (idx + rot) % 2 == 0:
+                # the documented alternative input form: a tuple of strings (here split after line `cut`); the lines are
+                # independent, so the composed constraint must give the result already judged above
+                cut = 1 + (idx + rot) // 2 % (len(recs) - 1)
+                try:
+                    yt = comp.get_split(text, sch, loc, cut)(sch.point(x, kind))
+                    if not (len(yt) == len(y) and all(bool(p == q) for p, q in zip(list(yt), list(y)))):
+                        problems.append(("tuple-of-strings-differs", "the system given as a tuple of strings (lines[:%d], lines[%d:]) "
+                                         "gives %r, as one string %r" % (cut, cut, list(yt), list(y))))
+                except Exception as ex:
+                    problems.append(("tuple-of-strings-raises:%s" % type(ex).__name__, "the system given as a tuple of strings raised %r" % ex))
             if lost:
                 problems.append(("step-breaks-earlier-line", "applying the solvers one by one: lines %s held and were broken by a later step" % lost))
             if not stepwise_same:
